@@ -9,7 +9,7 @@ from concurrent.futures import ThreadPoolExecutor
 def one(args):
     prof, seed, exe = args
     rng = random.Random(f"{prof}/{seed}")
-    ops = getattr(gen, "gen_" + prof)(rng)
+    ops = [o for o in getattr(gen, "gen_" + prof)(rng) if "@DUMP" not in o]
     rc, cb, err = vlib.run_c(exe, ops, timeout=300)
     rl, lb, lerr = vlib.run_lean(ops, timeout=600)
     d = vlib.first_diff(ops, cb, lb)
